@@ -1023,10 +1023,11 @@ class StructOf(DataType):
             for key, val in value.items():
                 if val is not None:  # goodie: allow None instead of missing key
                     result[key] = self.members[key](val)
-            return ImmutableDict(result)
         except Exception as e:
             errcls = RangeError if isinstance(e, RangeError) else WrongTypeError
             raise errcls('can not convert struct element %s' % key) from e
+        self.check_type(result)  # a None must not hide a missing member
+        return ImmutableDict(result)
 
     def validate(self, value, previous=None):
         self.check_type(value, True)
